@@ -261,6 +261,36 @@ def run(ctx):
                 ctx.violation("robsd-config: values of %d bytes referenced %d times do not come out whole (%d bytes of output)" % (L, reps, len(out)),
                               dict(value_length=L, template=t_.decode()))
             kinds["long-expansion"] = kinds.get("long-expansion", 0) + 1
+    # ---- the html generator on roots that hold directories which are no invocations (no step.csv, an empty
+    # or garbage step.csv), sorting before, between and after one to three real ones
+    for variant in range(ctx.n(6, 30)):
+        hroot = os.path.join(ctx.scratch, "c12strays")
+        shutil.rmtree(hroot, ignore_errors=True)
+        os.makedirs(hroot)
+        real = ["2024-01-0%d.1" % (i + 1) for i in range(1 + variant % 3)]
+        for nm in real:
+            os.makedirs(os.path.join(hroot, nm))
+            open(os.path.join(hroot, nm, "step.csv"), "wb").write(
+                HEADER + b"1,bin/one,0,1,0,one.log,root,1700000000,0\n2,bin/two,1,5,0,two.log,root,1700000001,0\n3,end,0,1800,0,,root,1700001800,0\n")
+            open(os.path.join(hroot, nm, "one.log"), "wb").write(b"ok\n")
+            open(os.path.join(hroot, nm, "two.log"), "wb").write(b"==== t ====\nFAILED\n")
+        strays = rng.sample(["#recycle", "+lost", "0", "2024-01-01.0", "2024-01-02.5", "zz-old", "attic", "2025-01-01.1", ".hidden"], rng.randint(1, 4))
+        if variant < 3:
+            strays = [["#recycle"], ["0", "+lost"], ["#recycle", "2024-01-01.0", "zz-old"]][variant]
+        for nm in strays:
+            os.makedirs(os.path.join(hroot, nm))
+            kind = rng.choice(["none", "none", "empty", "garbage"])
+            if kind == "empty":
+                open(os.path.join(hroot, nm, "step.csv"), "wb").close()
+            elif kind == "garbage":
+                open(os.path.join(hroot, nm, "step.csv"), "wb").write(bytes(rng.randint(0, 255) for _ in range(40)))
+        outdir = os.path.join(ctx.scratch, "c12html")
+        shutil.rmtree(outdir, ignore_errors=True)
+        os.makedirs(outdir)
+        argv = ["-o", outdir, "amd64:" + hroot]
+        rc, out, err = core.run_cmd([os.path.join(d, "robsd-regress-html")] + argv, env=env, timeout=30)
+        judge("robsd-regress-html", argv, rc, out, err, b"", {"root": (", ".join(sorted(real + strays))).encode()})
+        kinds["html-stray-directories"] = kinds.get("html-stray-directories", 0) + 1
     # ---- logs beyond 1 MiB (the buffers of the report and html generators start at 1 MiB / 8 KiB)
     for variant in range(ctx.n(2, 6)):
         # suites named like regress tests (the html generator leaves the fixed steps env/cvs/... out)
